@@ -50,12 +50,24 @@ manifest = {
         'add_only': True,
     },
     'engines': [
-        {'name': 'model', 'path': 'vlib/model.py', 'serves_properties': ['C01', 'C02', 'C03', 'C08', 'C09', 'C10', 'C11', 'C12', 'C13', 'C14', 'C16', 'C18'],
-         'kind_free_text': 'reference model (dict key->bytes), operation interpreter and view comparer over the public API'},
-        {'name': 'rawread', 'path': 'vlib/rawread.py', 'serves_properties': ['C03', 'C05', 'C06', 'C09', 'C10', 'C11', 'C13', 'C17'],
-         'kind_free_text': 'library-independent reader: sqlite3 + byte slices + zlib'},
-        {'name': 'histories', 'path': 'vlib/histories.py', 'serves_properties': ['C02', 'C03', 'C09', 'C12', 'C13', 'C18'],
-         'kind_free_text': 'seeded API-history generator/runner with per-step monitors'},
+        {'name': 'E1 iotrace', 'path': 'vlib/iotrace.py', 'serves_properties': ['C04', 'C05', 'C06', 'C11', 'C13', 'C15', 'C17'],
+         'kind_free_text': 'in-process interposition of builtins.open/io.open, os.*, fcntl.fcntl and SQLAlchemy engine events with plans: record, crash@k (os._exit), fault@k, probe@k, yield; audit-hook blind-spot guard'},
+        {'name': 'E2 model/rawread/histories', 'path': 'vlib/model.py, vlib/rawread.py, vlib/histories.py, vlib/gen.py',
+         'serves_properties': ['C01', 'C02', 'C03', 'C09', 'C12', 'C13', 'C18'],
+         'kind_free_text': 'reference model (dict key->bytes), library-independent raw reader (sqlite3+slice+zlib), seeded API-history generator/runner with per-step monitors'},
+        {'name': 'E3 sched', 'path': 'vlib/sched.py', 'serves_properties': ['C04', 'C15'],
+         'kind_free_text': 'deterministic scheduler: actors are threads of which one runs at a time, switch points at every interposed I/O event; scripted, random and PCT pickers; replayable picks'},
+        {'name': 'E4 crashlab', 'path': 'vlib/crashlab.py, vlib/crashchecks.py, vlib/variants.py', 'serves_properties': ['C05', 'C06', 'C17'],
+         'kind_free_text': 'fork-per-case kill / power-loss image / single-fault enumeration at every Python-level I/O boundary of an operation-variant table'},
+        {'name': 'E5 sysinject', 'path': 'vlib/sysinject.py, vlib/sysinject_child.py', 'serves_properties': ['C05', 'C06', 'C17'],
+         'kind_free_text': 'strace attach to an uninstrumented interpreter: kill / errno injection at the n-th real syscall, offline ordering checker over the syscall log (WAL commit frames parsed from pwrite64 payloads)'},
+        {'name': 'E6 streamlab', 'path': 'vlib/streamlab.py, vlib/streamlab_o.py', 'serves_properties': ['C07'],
+         'kind_free_text': 'stream programs in lock-step against a position/contents model, with and without asserts (python -O)'},
+        {'name': 'E7 census/resources', 'path': 'vlib/census.py, vlib/resources.py', 'serves_properties': ['C18'],
+         'kind_free_text': '/proc/self/fd census at quiescent points and inside bulk reads; tracemalloc peaks vs object size'},
+        {'name': 'labs', 'path': 'vlib/conclab.py, vlib/multihandle.py, vlib/backuplab.py, vlib/importlab.py, vlib/complab.py, vlib/dellab.py, vlib/damagelab.py, vlib/bulklab.py, vlib/roundtrip.py',
+         'serves_properties': ['C01', 'C04', 'C08', 'C10', 'C11', 'C12', 'C14', 'C15', 'C16'],
+         'kind_free_text': 'property-specific workload generators and oracles built on E1-E3'},
     ],
     'checks': checks,
     'not_applicable': na,
